@@ -145,7 +145,7 @@ def stream_entry_assemble(hasher, file, eccfile, entry_fields, max_block_size, h
     ecc_curpos = eccfile.tell()
     while (ecc_curpos < entry_fields["ecc_field_pos"][1]): # continue reading the input file until we reach the position of the previously detected ending marker
         # Compute the current rate, depending on where we are inside the input file (headers? later stage?)
-        if curpos < header_size or constantmode: # header stage: constant rate
+        if curpos < header_size or constantmode or entry_fields["filesize"] <= header_size: # header stage: constant rate (also for a file that was recorded with no later stage at all: past its end -- an ecc track longer than the file needs, eg because the next entrymarker was lost -- there is no range to interpolate the rate in, feature_scaling() would divide by zero)
             rate = resilience_rates[0]
         else: # later stage 2 or 3: progressive rate
             rate = feature_scaling(curpos, header_size, entry_fields["filesize"], resilience_rates[1], resilience_rates[2]) # find the rate for the current stream of data (interpolate between stage 2 and stage 3 rates depending on the cursor position in the file)
